@@ -25,13 +25,13 @@ CHECKS = {
              text="Step lemma: with a ready entry for Q no command is executed and the predecessor is never requested (the stub *is* the cached prefix, so 'only commands right of the longest cached prefix run' follows level by level); after a cacheable miss the cache contains Q and serves its value; the predecessor is requested exactly once with the same cache.",
              design="§4 C09"),
  "C18": dict(level="model_checking", technique=EV + "; metadata of the returned state and of the kept copies compared field by field with what the step actually did",
-             text="Claimed in part. Step lemma over 14 queries (typed argument, second-namespace command with attributes, five value types + opaque object, failing command, three trailing file names, link argument, sub-evaluation) with symbolic predecessor data, capitalised attribute and volatility, with/without store_key: canonical query, status/is_error/get() agreement, type identifier and data characteristics of the actual value, last command + namespace + version, parent query, argument/sub-queries, file name/extension/mimetype, attribute persistence, and agreement of the MemoryCache and MemoryStore copies; kernels: mimetype over every known extension, Metadata wrapper consistency.",
+             text="Claimed in part. Step lemma over 20 queries (typed argument, second-namespace command with attributes, five value types + opaque object, same-type steps, first-command mid-query, three ways of failing, four trailing file names incl. several dots, link argument, sub-evaluation), failed-predecessor queries and cache-hit + store_key with symbolic predecessor data, capitalised attribute and volatility, with/without store_key: canonical query, status/is_error/get() agreement, type identifier and data characteristics of the actual value, last command + namespace + version, parent query, argument/sub-queries, file name/extension/mimetype, attribute persistence, and agreement of the MemoryCache and MemoryStore copies; kernels: mimetype over every known extension, Metadata wrapper consistency.",
              design="§4 C18"),
  "C10": dict(level="model_checking", technique=EV + "; plus clone-isolation kernels over MemoryCache with symbolic list/dict data and over vars_clone with symbolic nested defaults",
              text="(a) two real evaluations with in-place mutation of every variable value by a command and by the caller in between: the second sees exactly the configured defaults (symbolic list/dict/int) and liquer.state._vars is unchanged; (b) step lemma over 6 queries: variables set by the action and inherited from the predecessor are exactly the result's variables, the predecessor's variables reach the action and relative links; (c) an in-place mutator leaves the predecessor object unchanged; (d) MemoryCache serves the stored value regardless of later mutation of the stored state, its metadata or served states (List[int] len<=3, Dict[str,int]).",
              design="§4 C10"),
  "C06": dict(level="model_checking", technique=EV + "; plus State.get kernel over symbolic error logs",
-             text="(a) an error predecessor state propagates: error result, get() raises, no command executed, nothing cached; (b) each failure kind (command raises, unknown command, unconvertible/missing/surplus argument, failing absolute/relative link, missing resource, unconvertible symbolic extra argument) yields an error state or a raised evaluation, never a value; (c) the failure carries the query text and the offset of the failing action/link argument as positioned by the real parser; (d) State.get re-raises with the last error entry's position and query for every log of length <=2 (thorough 3).",
+             text="(a) an error predecessor state propagates: error result, get() raises, no command executed, nothing cached; (b) each failure kind (command raises Exception / EvaluationException / after an earlier action / hands back a failed sub-state, unknown command, unconvertible/missing/surplus (incl. empty) argument, failing absolute/relative/nested link, resource that is missing / a directory / data-less, result saved with an unwritable extension, unconvertible symbolic extra argument) yields an error state or a raised evaluation, never a value; (c) the failure carries the query text and the offset of the failing action/link argument as positioned by the real parser; (d) State.get re-raises with the last error entry's position and query for every log of length <=2 (thorough 3).",
              design="§4 C06"),
  "C07": dict(level="model_checking", technique="CrossHair/z3 bounded symbolic execution: one inductive step of the real store classes from every valid pre-state, all observers compared with a dictionary reference model",
              text="STEP lemma: for MemoryStore, FileStore (ShimFS), ProxyStore, IndexerStore, OverlayStore with empty fall-back, MountPointStore and the default global composition (quick: 4 of the 9 configurations), from each of 28 valid pre-states over a 6-key universe, each well-formed operation (store, metadata update, remove, makedir, recursive / empty removedir, reads) with payload length 0..2 and symbolic caller metadata leaves a state that equals the reference model through every observer (bytes, caller fields, key/name/is_dir/size/md5, listings, frame condition). The path tree is exhausted per (configuration, operation).",
@@ -40,7 +40,7 @@ CHECKS = {
              text="Claimed in part: text and bytes round trip for every value of length <=3 (thorough 4); json for None, int -99..99, short str, dicts with <=2 keys (pool incl. '' and a key containing a quote) and int/None/str/list leaves, nesting depth <=2 (thorough); identifier dispatch over 7 value kinds; copy independence for nested lists/dicts. pickle/parquet/feather/DataFrame formats, floats and the djson format are outside the claim (C libraries / engine limits).",
              design="§4 C11"),
  "C12": dict(level="model_checking", technique="CrossHair/z3: symbolic pre-emption point over cache-operation (and file-access) windows of real evaluations sharing one cache; nested schedules only",
-             text="Claimed for nesting schedules: for 5 (thorough 9) pairs of overlapping queries and MemoryCache / StoreCache (thorough + FileCache on ShimFS, + a third evaluation nested at depth 2) every window k in which the second evaluation runs to completion inside the first is a solver decision; each evaluation returns what it returns alone and every ready entry left in the cache equals a fresh evaluation of its key. Alternating (non-nested) thread schedules, the pool and the web server are outside the claim.",
+             text="Claimed for nesting schedules: for 10 pairs of overlapping queries and MemoryCache / StoreCache / FileCache on ShimFS (file-access windows), plus a third evaluation nested at depth 2 (quick: MemoryCache, 3 combinations; thorough: all caches, 6 combinations) every window k in which the second evaluation runs to completion inside the first is a solver decision; each evaluation returns what it returns alone and every ready entry left in the cache equals a fresh evaluation of its key. Alternating (non-nested) thread schedules, the pool and the web server are outside the claim.",
              design="§4 C12"),
  "C13": dict(level="model_checking", technique="CrossHair/z3 bounded symbolic execution: one-step map lemma over cache back-ends and combinators from API-reached pre-states chosen by solver decisions; path-scheme kernel on free symbolic key strings",
              text="18 back-ends / combinators (MemoryCache, CacheProxy, FileCache/ShimFS, StoreCache flat+nested on MemoryStore and FileStore/ShimFS, '+' with MemoryCache/NoCache, four conditional wrappers, SQLCache and SQLStringCache on in-memory sqlite, XORFileCache and FernetFileCache on ShimFS incl. 'no plain bytes on disk'; their C libraries run untraced on each path's concrete data; quick: 11 of 18): from every pre-state (each of 3 (thorough 4) confusable keys absent/ready/metadata-only) one operation (store of 5 value types, store_metadata evaluation/ready, remove, clean, reads) leaves get/get_metadata/contains/keys of every key equal to the map model. Kernel: nested StoreCache.to_path is injective and prefix-free for |k1|<=2 (4), |k2|<=|k1|+14 outside the listed collision. ",
@@ -52,16 +52,16 @@ CHECKS = {
              text="For every valid fall-back content over a 5-key universe, every history of <=1 removal and <=1 write (thorough <=2/<=2, FileStore/ShimFS in either role) followed by one more operation (7 kinds, symbolic metadata int): every observer of the overlay equals the model 'fall-back shadowed by writes, masked by removals' and the fall-back observed before and after is identical.",
              design="§4 C15"),
  "C19": dict(level="model_checking", technique="CrossHair/z3 bounded symbolic execution of ResourceQuerySegment.to_absolute and Query.to_absolute against a POSIX-normpath reference model",
-             text="Bounded exhaustive symbolic exploration: every directory depth <=3 (thorough 4) x every component-class vector of length <=4 (thorough 6) is covered by an exhausted path tree of the real to_absolute code; Query-level frame/idempotence obligations over <=3 segments.",
+             text="Bounded exhaustive symbolic exploration: every directory depth <=3 (thorough 4) x every component-class vector of length <=4 (thorough 6) over 6 classes ('.', '..', plain, inner-dot, leading-dot and leading-double-dot names) is covered by an exhausted path tree of the real to_absolute code; Query-level frame/idempotence obligations over <=3 segments x 4 kinds, with the default, a named and the None (all) resource selector.",
              design="§4 C19"),
  "C16": dict(level="fault_enumeration", technique="CrossHair/z3 symbolic fault variables (crash point, torn length) over the real FileCache/FileStore/StoreCache write paths on an in-memory POSIX model (ShimFS)",
              text="For store / store_metadata / remove of a fresh or existing entry (5 value types, type-changing overwrites included) in FileCache, XORFileCache, FernetFileCache, FileStore and StoreCache (flat, nested) on a FileStore: every crash point 0..14 of the mutating FS operations and torn flush lengths {0..16 (thorough 0..256), len/2, len-1} are solver decisions; after the crash a fresh object must read nothing, the complete old or the complete new value, and a second entry must be unchanged. The path tree is exhausted per (back-end, operation).",
              design="§4 C16"),
  "C17": dict(level="model_checking", technique="CrossHair/z3 bounded symbolic execution: one-step lemma over the read-only proxy from arbitrary valid pre-states, and a root-containment kernel over FileStore key handling on an in-memory POSIX model (ShimFS) with logged accesses",
-             text="Read-only view: from every valid 6-key pre-state (MemoryStore, FileStore/ShimFS) each of 7 mutators with universe keys, free symbolic key text |k|<=3, symbolic payload and 13 write modes is refused with ReadOnlyStoreException and leaves every observer and the FS snapshot unchanged; reads equal the underlying reads. Containment: every key of <=3 (thorough 4) components over {name,'.','..','','__metadata__'} x leading '/' x 15 operations, directly / via mount / via evaluate_resource, touches nothing outside the root.",
+             text="Read-only view: from every valid 7-key pre-state (MemoryStore, FileStore/ShimFS, store.with_indexer()) each of 7 mutators with universe keys, free symbolic key text |k|<=3, symbolic payload and 13 write modes is refused with ReadOnlyStoreException and leaves every observer and the FS snapshot unchanged; reads equal the underlying reads. Containment: every key of <=3 (thorough 4) components over {name,'.','..','','__metadata__', a sibling whose name extends the root's} x leading '/' x 15 operations, directly / via mount / via evaluate_resource, touches nothing outside the root.",
              design="§4 C17"),
  "C20": dict(level="model_checking", technique="CrossHair/z3 bounded symbolic execution of the enable/disable gate and register_remote_serialized over all call histories within the bound",
-             text="Gate clause only: for every enable/disable history of length <=6 (thorough 10) the gate equals the last call, a refused registration returns the error and leaves the registry unchanged, and the real Flask endpoints (run untraced per path) refuse exactly when the gate is closed. All other HTTP clauses of C20 are outside the claim.",
+             text="Gate clause only: for every enable/disable history of length <=6 (thorough 10) the gate equals the last call; a refused registration returns the error, leaves the registry unchanged and does not even decode the payload (valid, base64, a pickle with an observable load side effect, 'B'+free bytes); the real Flask endpoints (run untraced per path) refuse exactly when the gate is closed. All other HTTP clauses of C20 are outside the claim.",
              design="§4 C20"),
 }
 NOT_APPLICABLE = {
